@@ -235,7 +235,8 @@ InvProbs(SL, c, id) ==
   LET items == InvItems(c) IN
   UNION {LET iv == items[i] IN
          IF ~IsO(iv) THEN {<<"must", "invoke_not_object", id>>}
-         ELSE (IF Has(iv, "src") /\ ~IsS(G(iv, "src")) THEN {<<"must", "invoke_src_not_string", id>>} ELSE {})
+         \* (a falsy src - null, false, 0, "", [], {} - is read as "no src": documented warning, class may below)
+         ELSE (IF Has(iv, "src") /\ ~IsS(G(iv, "src")) /\ Truthy(G(iv, "src")) THEN {<<"must", "invoke_src_not_string", id>>} ELSE {})
               \cup (IF ~Truthy(G(iv, "src")) THEN {<<"may", "invoke_without_src", id>>} ELSE {})
               \cup (IF Has(iv, "id") /\ ~IsS(G(iv, "id")) THEN {<<"may", "invoke_id_not_string", id>>} ELSE {})
               \cup (IF Has(iv, "onDone") /\ IsZ(G(iv, "onDone")) THEN {<<"may", "invoke_onDone_null", id>>}
